@@ -157,7 +157,8 @@ func worker() {
 					// returned, a non-blocking exclusive flock on a fresh descriptor must be granted
 					kind := []string{"Write", "Write whose content reader fails", "Transform", "Transform whose function fails", "Create+Close", "Edit+Close", "Open+Close", "Mutex.Lock+unlock",
 						"Create+Close with the descriptor duplicated", "Edit+Close with the descriptor duplicated", "Open+Close with the descriptor duplicated",
-						"OpenFile(O_CREATE|O_EXCL) of a new path+Close", "OpenFile(O_CREATE|O_EXCL) of a new path+Close"}[rng.Intn(13)]
+						"OpenFile(O_CREATE|O_EXCL) of a new path+Close", "OpenFile(O_CREATE|O_EXCL) of a new path+Close",
+						"OpenFile(O_RDONLY|O_CREATE)+Close", "OpenFile(O_RDONLY|O_CREATE)+Close"}[rng.Intn(15)]
 					// "with the descriptor duplicated": a second descriptor for the same open file description
 					// exists when Close is called (what a child process that inherited the descriptor, or a
 					// fork in progress in another goroutine, amounts to): Close must release the lock itself,
@@ -179,9 +180,14 @@ func worker() {
 						wantErr = true
 						err = lockedfile.Transform(priv, func(old []byte) ([]byte, error) { return nil, errProbe })
 					case "Create+Close", "Edit+Close", "Open+Close", "Create+Close with the descriptor duplicated", "Edit+Close with the descriptor duplicated", "Open+Close with the descriptor duplicated",
-						"OpenFile(O_CREATE|O_EXCL) of a new path+Close":
+						"OpenFile(O_CREATE|O_EXCL) of a new path+Close", "OpenFile(O_RDONLY|O_CREATE)+Close":
 						var f *lockedfile.File
+						readHeld := false
 						switch kind0 {
+						case "OpenFile(O_RDONLY|O_CREATE)+Close":
+							// read-only, whatever else the flags say: a read lock, which other readers share
+							readHeld = true
+							f, err = lockedfile.OpenFile(priv, os.O_RDONLY|os.O_CREATE, 0o666)
 						case "OpenFile(O_CREATE|O_EXCL) of a new path+Close":
 							// the holder creates the lock file itself: nobody can have locked it before, anybody can try after
 							os.Remove(priv)
@@ -191,7 +197,9 @@ func worker() {
 						case "Edit+Close":
 							f, err = lockedfile.Edit(priv)
 						default:
+							readHeld = true
 							if f, err = lockedfile.Open(priv); errors.Is(err, fs.ErrNotExist) {
+								readHeld = false // the path does not exist yet: created (write-locked) instead
 								f, err = lockedfile.Create(priv)
 							}
 						}
@@ -206,6 +214,14 @@ func worker() {
 								if ferr := syscall.Flock(int(hf.Fd()), syscall.LOCK_EX|syscall.LOCK_NB); ferr == nil {
 									viol("lock-not-held", fmt.Sprintf("pid %d: %s on %s has returned a File that is still open, but the file is not locked: a non-blocking exclusive flock on a fresh descriptor was granted", os.Getpid(), kind0, filepath.Base(priv)))
 									syscall.Flock(int(hf.Fd()), syscall.LOCK_UN)
+								}
+								if readHeld {
+									// a read lock excludes only writers: another reader gets in
+									if ferr := syscall.Flock(int(hf.Fd()), syscall.LOCK_SH|syscall.LOCK_NB); ferr == syscall.EWOULDBLOCK {
+										viol("read-lock-not-shared", fmt.Sprintf("pid %d: while %s holds %s (a read lock), a non-blocking shared flock on a fresh descriptor is refused: readers exclude each other", os.Getpid(), kind0, filepath.Base(priv)))
+									} else if ferr == nil {
+										syscall.Flock(int(hf.Fd()), syscall.LOCK_UN)
+									}
 								}
 								hf.Close()
 								mu.Lock()
@@ -484,7 +500,7 @@ func main() {
 		return
 	}
 	vlib.Main("C06", "exploration", 10*time.Minute, func(r *vlib.Run) {
-		r.Rule("rounds of P processes x G goroutines released together, each doing N acquisitions on 2-3 lock paths (regular files; every other round also one private character device or FIFO, whose truncation by Create/Write fails and is tolerated) through a random entry point (OpenFile O_RDONLY/O_WRONLY/O_RDWR, Open, Create, Edit, Mutex.Lock, inside Transform's function, inside the reader handed to Write), dwelling 0-300us inside, with seeded delays at the lockedfile.open/close hooks; every second worker process closes its standard input first, so that lock files are opened on descriptor 0; one round in six runs its workers as uid 65534 on lock files they can read but not write (write-locking entry points must be refused, not weakened); every third round the workers run under strace, which makes every other flock call of every thread fail with EINTR (an interrupted lock request must be reissued, never taken for granted) or, in every other such round, every third one with ENOSYS (a refused lock request must surface as an error, never as an unlocked file); in the other rounds one operation in 16 is a release probe: an acquisition on a path private to the goroutine, ended in each way an entry point can end (Write / Write whose content reader fails / Transform / Transform whose function fails / Create, Edit, Open + Close, also while a duplicate of the descriptor is open elsewhere, OpenFile with O_CREATE|O_EXCL of a path that does not exist yet / Mutex.Lock + unlock; while a File is open an exclusive request on a fresh descriptor must be refused), after whose return a non-blocking exclusive flock on a fresh descriptor must be granted; five holders (Edit / Create / Mutex.Lock) that drop their reference without closing and run the collector: while such a process lives nobody else is granted the lock. Evaluations = acquisitions; distinct non-trivial = acquisitions that found a conflicting holder inside when they were invoked (had to wait), plus rounds.")
+		r.Rule("rounds of P processes x G goroutines released together, each doing N acquisitions on 2-3 lock paths (regular files; every other round also one private character device or FIFO, whose truncation by Create/Write fails and is tolerated) through a random entry point (OpenFile O_RDONLY/O_WRONLY/O_RDWR, Open, Create, Edit, Mutex.Lock, inside Transform's function, inside the reader handed to Write), dwelling 0-300us inside, with seeded delays at the lockedfile.open/close hooks; every second worker process closes its standard input first, so that lock files are opened on descriptor 0; one round in six runs its workers as uid 65534 on lock files they can read but not write (write-locking entry points must be refused, not weakened); every third round the workers run under strace, which makes every other flock call of every thread fail with EINTR (an interrupted lock request must be reissued, never taken for granted) or, in every other such round, every third one with ENOSYS (a refused lock request must surface as an error, never as an unlocked file); in the other rounds one operation in 16 is a release probe: an acquisition on a path private to the goroutine, ended in each way an entry point can end (Write / Write whose content reader fails / Transform / Transform whose function fails / Create, Edit, Open + Close, also while a duplicate of the descriptor is open elsewhere, OpenFile with O_CREATE|O_EXCL of a path that does not exist yet / Mutex.Lock + unlock; OpenFile(O_RDONLY|O_CREATE); while a File is open an exclusive request on a fresh descriptor must be refused, and a shared one granted when the File is a reader's), after whose return a non-blocking exclusive flock on a fresh descriptor must be granted; five holders (Edit / Create / Mutex.Lock) that drop their reference without closing and run the collector: while such a process lives nobody else is granted the lock. Evaluations = acquisitions; distinct non-trivial = acquisitions that found a conflicting holder inside when they were invoked (had to wait), plus rounds.")
 		r.Assume("flock semantics of the host kernel; the occupancy word is updated only between an acquiring call's return and the releasing call's invocation")
 		base := vlib.Scratch()
 		rounds := r.Pick(6, 28)
